@@ -9,8 +9,11 @@ CONSTANTS
 INVARIANT DecodeTotal
 INVARIANT DecodeIdentityOnPlain
 INVARIANT DecodeConcat
+INVARIANT DecodeChunkLaw
 INVARIANT EncodeOutputAlphabet
 INVARIANT EncodeConcat
 INVARIANT DecodeEncodeId
+INVARIANT EncodedPiecesAreChunks
 INVARIANT CheckEscapedFixpoint
+INVARIANT CheckEscapedConcat
 INVARIANT Emit
